@@ -4,6 +4,13 @@
      W wf= pc=  # SC st tok (S t|R p|A)  # SD st tok (S|R|E) reported  # SAR st tok  # SS st tok pidx  # SRC st tok pidx…
      # M ok|builderr|panic|nofinal  # MS st tok pidx  # MR st tok x y
      # ETP tok level kind  # EPP pidx (level kind|-)  # EDUP tok  # EPANIC pidx
+     # YC st tok (S t|R p|A|E)   cell_yacc's entry, printed only where it differs from cell_spec's
+     # YS st tok pidx            every shift/reduce pair cell_yacc reports
+     # YR st tok x y             every reduce/reduce pair cell_yacc reports
+     # Y3 st tok <yacc_agrees_b>   every three-way cell (shift + >= 2 reductions)
+     # B3 st tok (S t|R p|A|E)   cell_bison's entry, printed for the cells on which cell_bison differs from cell_yacc
+     #                           (only three-way cells: C03_cell_bison_eq_yacc_outside_three_way), followed by ALL its
+     # BS st tok pidx / BR st tok x y   reported pairs for that cell
    mode `canon-ar`: grammar dump -> `AR <0|1> n=<canonical states>`
    mode `expect`: lines `<expect|-> <expectrr|-> <sr> <rr>` -> `spec=<0|1> mirror=<0|1>` *)
 let assoc_of_int = function 0 -> ALeft | 1 -> ARight | _ -> ANonassoc
@@ -52,6 +59,21 @@ let dump_main () =
              Buffer.add_string b (Printf.sprintf " # SD %d %d %s %s" s a
                (match c with Shift _ -> "S" | Reduce _ -> "R" | Err -> "E" | Accept -> "A") (b2s rep))
          | _ -> ());
+        (let ((ya, ys), yr) = cell_yacc g tp pp items es na in
+         if ya <> cell_spec g tp pp items es na then
+           Buffer.add_string b (Printf.sprintf " # YC %d %d %s" s a (pp_act ya));
+         List.iter (fun p -> Buffer.add_string b (Printf.sprintf " # YS %d %d %d" s a (int_of_n p))) ys;
+         List.iter (fun (x, y) ->
+           Buffer.add_string b (Printf.sprintf " # YR %d %d %d %d" s a (int_of_n x) (int_of_n y))) yr;
+         if three_way_b g items es na then
+           Buffer.add_string b (Printf.sprintf " # Y3 %d %d %s" s a (b2s (yacc_agrees_b g tp pp items es na)));
+         let ((ba, bs), br) = cell_bison g tp pp items es na in
+         if ((ba, bs), br) <> ((ya, ys), yr) then begin
+           Buffer.add_string b (Printf.sprintf " # B3 %d %d %s" s a (pp_act ba));
+           List.iter (fun p -> Buffer.add_string b (Printf.sprintf " # BS %d %d %d" s a (int_of_n p))) bs;
+           List.iter (fun (x, y) ->
+             Buffer.add_string b (Printf.sprintf " # BR %d %d %d %d" s a (int_of_n x) (int_of_n y))) br
+         end);
         if accept_reduce_b g items na then Buffer.add_string b (Printf.sprintf " # SAR %d %d" s a);
         (match red_cands g items na with
          | _ :: _ :: _ as l ->
